@@ -106,6 +106,7 @@ package mqtt
 //@ requires c.onlineSig != nil && !closed(c.onlineSig) && cap(c.onlineSig) == 1
 //@ ensures !closed(c.onlineSig) && cap(c.onlineSig) == 1
 //@ ensures old(len(c.onlineSig)) == 1 ==> len(c.onlineSig) == 1 && qat(c.onlineSig, 0) == old(qat(c.onlineSig, 0))
+//@ ensures[C10,C12] ch != nil && len(c.onlineSig) == 1 && qat(c.onlineSig, 0) == ch
 
 // lockWrite: takes the write token. nil error: the token (a live connection) is held.
 //@ func mqtt.(*Client).lockWrite -> conn, err
@@ -850,3 +851,12 @@ package mqtt
 //@ func mqtt.IsEnd -> r
 //@ pure
 //@ ensures[C14,C12] r == (err != nil && (Is(err, ErrClosed) || Is(err, ErrCanceled) || Is(err, ErrAbandoned)))
+
+// Backoff: nothing to wait for after success and after the permanent classes (denied, ended, refused by
+// the broker); a wait otherwise.
+//@ pred ended(err): Is(err, ErrClosed) || Is(err, ErrCanceled) || Is(err, ErrAbandoned)
+//@ func mqtt.(*Client).Backoff -> ch
+//@ requires c.onlineSig != nil && !closed(c.onlineSig) && cap(c.onlineSig) == 1
+//@ ensures[C14] err == nil || denied(err) || ended(err) ==> ch == nil
+//@ ensures[C14] err != nil && !denied(err) && !ended(err) && !Is(err, ErrMax) && as(err, SubscribeError) ==> ch == nil
+//@ ensures[C14,C10] err != nil && !denied(err) && !ended(err) && !Is(err, ErrMax) && !as(err, SubscribeError) ==> ch != nil
